@@ -333,6 +333,9 @@ def gen_c02_spec(rng: random.Random) -> Dict[str, Any]:
         spec["mws"] = [{"post_execute": {"async": True, "lat": rng.choice(["y", 0.02])},
                         "post_save": {"async": rng.random() < 0.5, "lat": 0.01}}]
     spec["horizon"] = est_horizon(spec)
+    if rng.random() < 0.1 and spec["cfg"]["A"] is not None:
+        spec["via"] = "api"  # ack type handed through taskiq.api.run_receiver_task(ack_time=...)
+        spec["end_stream"] = False
     return spec
 
 
@@ -363,7 +366,7 @@ class C02(WorkerCheck):
         cr.violations += v
         cr.counters["crash_prefixes_examined"] += prefixes
         cr.counters["ack_type_" + spec["cfg"]["ack"]] += 1
-        if rr.outcome != "returned":
+        if rr.outcome not in ("returned", "api-horizon"):
             cr.violations.append(Violation("worker-stalled", f"outcome {rr.outcome} {rr.err}"))
 
     def nontrivial(self, rr: RunResult, spec: Dict[str, Any]) -> bool:
@@ -469,6 +472,9 @@ def gen_c03_spec(rng: random.Random, maxn: int = 40) -> Dict[str, Any]:
     if mw:
         spec["mws"] = [mw]
     spec["horizon"] = est_horizon(spec) + 10 * (A + 2)
+    if rng.random() < 0.1:
+        spec["via"] = "api"  # taskiq.api.run_receiver_task (never returns: judged at the horizon)
+        spec["end_stream"] = False
     return spec
 
 
@@ -552,6 +558,8 @@ def gen_c04_spec(rng: random.Random, A: int, P: int) -> Dict[str, Any]:
         h = rng.choice(["pre_execute", "post_execute", "post_save"])
         spec["mws"] = [{h: {"async": rng.random() < 0.5, "raise": toks}}]
         spec["backend"]["fail"] = [f"m{i}" for i in range(n) if rng.random() < 0.1]
+    if rng.random() < 0.1 and "stop_at" not in spec:
+        spec["via"] = "api"
     if rng.random() < 0.3:
         spec["stop_at"] = rng.choice([0.5, 1.0, 2.2])
     spec["horizon"] = 40.0
@@ -774,6 +782,10 @@ def gen_c06_spec(rng: random.Random, depth: int, maxmsgs: int) -> Dict[str, Any]
                             "backend": {"lat": rng.choice([0, 0.02])}}
     if rng.random() < 0.3:
         spec["mws"] = [{"pre_execute": {"async": True, "lat": rng.choice(["y", 0.02])}}]
+    if rng.random() < 0.15:
+        spec["via"] = "inmemory"  # same tasks through InMemoryBroker.kick (callback in a new asyncio task per kiq)
+        for m in msgs:
+            m.pop("raw_labels", None)
     spec["horizon"] = est_horizon(spec) + 5 * len(deps)
     return spec
 
@@ -837,6 +849,8 @@ def gen_c07_spec(rng: random.Random) -> Dict[str, Any]:
         msgs.append(m)
     spec: Dict[str, Any] = {"cfg": {"A": rng.choice([1, 2, 4, None]), "P": rng.choice([0, 1])}, "msgs": msgs,
                             "end_stream": True, "backend": {"lat": rng.choice([0, "y", 0.05]), "fail": fail}}
+    if rng.random() < 0.12:
+        spec["via"] = "inmemory"
     spec["horizon"] = est_horizon(spec)
     return spec
 
@@ -908,6 +922,9 @@ def gen_c10_spec(rng: random.Random) -> Dict[str, Any]:
                             "kick_lat": rng.choice([0, 0, 0.01]),
                             "backend": {"lat": rng.choice([0, "y", 0.02]), "fail": fail_backend},
                             "stop_at": 8.0, "horizon": 40.0, "msgs": []}
+    if rng.random() < 0.12:
+        spec["via"] = "inmemory"
+        spec["kick_lat"] = 0
     return spec
 
 
@@ -987,6 +1004,9 @@ def gen_c12_spec(rng: random.Random, depth: int) -> Dict[str, Any]:
         "backend": {"lat": rng.choice([0, 0.01])},
         "mws": [{"post_execute": {"async": False}, "on_error": {"async": False}}] if rng.random() < 0.7 else [],
     }
+    if rng.random() < 0.12:
+        spec["via"] = "inmemory"
+        spec["cfg"]["ack"] = "when_saved"
     spec["horizon"] = est_horizon(spec) + 5 * len(deps)
     return spec
 
